@@ -20,7 +20,7 @@
 //   cdg <sid> <pl>[,<pl>…]      the connected peer of client session sid sends to it, then ONE EPOLLIN on its socket
 //   connect <p> | via <lid> <p> | close <sid> | send <sid> <pl> <ok|eagain|err>
 //   wl <lid> <script> | wc <sid> <script>    EPOLLOUT on the listener / client socket (only if armed), script over o/e/x or `-`
-//   adv <ms> | gc
+//   adv <ms> | gc | restart (stop() + start() of the same engine object)
 // payload token <pl> = <len>.<hexpattern> (pattern repeated cyclically).  Events: A<sid>@<p> accept, N<sid>@<p> connected,
 // D<sid>:<len>:<crc32> data, X<sid>:<why> closed, E error(Socket), S<L<lid>|C<sid>>><p>:<len>:<crc32> datagram received by peer p.
 // State: n=<sessionsCurrent> ix=<p>><sid>,… s=<sid>c@<p>:<wq>:<wantWrite>|<sid>p@<p>/<owner>,… l=L<lid>:<wq>:<wantWrite>,…
@@ -110,14 +110,14 @@ static std::condition_variable g_cv;
 static bool g_step = false, g_parked = false, g_go = false;
 static std::atomic<bool> g_stepA{false};            // lock-free copy of g_step for the send interposers
 static std::vector<epoll_event> g_deliver;
-static pthread_t g_main, g_aux;                      // g_aux: the helper thread blocked in addListener()
+static pthread_t g_main;                              // helper threads (addListener / stop callers) never reach an interposer
 static unsigned long g_parks = 0;
 
 extern "C" int epoll_wait(int epfd, struct epoll_event* ev, int maxev, int timeout)
 {
   {
     std::unique_lock<std::mutex> lk(g_m);
-    if (g_step && !pthread_equal(pthread_self(), g_main) && !pthread_equal(pthread_self(), g_aux))
+    if (g_step && !pthread_equal(pthread_self(), g_main))
     {
       g_parked = true;
       ++g_parks;
@@ -168,6 +168,21 @@ static bool waitParked()
   std::unique_lock<std::mutex> lk(g_m);
   g_cv.wait(lk, [] { return g_parked && !g_go; });   // untimed: the watchdog thread bounds it
   return true;
+}
+
+// Hand the parked I/O thread one event WITHOUT waiting for it to come back (used for the Shutdown command: the thread exits).
+static void deliverNoWait(int fd, std::uint32_t events)
+{
+  waitParked();
+  {
+    std::lock_guard<std::mutex> lk(g_m);
+    epoll_event e{};
+    e.events = events;
+    e.data.fd = fd;
+    g_deliver.push_back(e);
+    g_go = true;
+  }
+  g_cv.notify_all();
 }
 
 static bool deliver(int fd, std::uint32_t events)
@@ -264,7 +279,7 @@ static int scripted(size_t n)   // 0 forward, 1 EAGAIN, 2 error
 
 extern "C" ssize_t sendto(int fd, const void* buf, size_t n, int flags, const struct sockaddr* to, socklen_t tl)
 {
-  bool engine = g_stepA.load(std::memory_order_acquire) && !pthread_equal(pthread_self(), g_main) && !pthread_equal(pthread_self(), g_aux);
+  bool engine = g_stepA.load(std::memory_order_acquire) && !pthread_equal(pthread_self(), g_main);
   if (!engine) return realSendto()(fd, buf, n, flags, to, tl);
   int a = scripted(n);
   if (a == 1) { errno = EAGAIN; return -1; }
@@ -282,7 +297,7 @@ extern "C" ssize_t sendto(int fd, const void* buf, size_t n, int flags, const st
 
 extern "C" ssize_t send(int fd, const void* buf, size_t n, int flags)
 {
-  bool engine = g_stepA.load(std::memory_order_acquire) && !pthread_equal(pthread_self(), g_main) && !pthread_equal(pthread_self(), g_aux);
+  bool engine = g_stepA.load(std::memory_order_acquire) && !pthread_equal(pthread_self(), g_main);
   if (!engine) return realSend()(fd, buf, n, flags);
   int a = scripted(n);
   if (a == 1) { errno = EAGAIN; return -1; }
@@ -543,11 +558,13 @@ static std::string stateLine()
     }
   }
   o << " l=";
+  bool firstL = true;
   for (std::size_t i = 0; i < W.lids.size(); ++i)
   {
     auto it = e._listeners.find(W.lids[i]);
-    if (i) o << ",";
-    if (it == e._listeners.end()) { o << "L" << (i + 1) << ":gone"; continue; }
+    if (it == e._listeners.end()) continue;            // closed by a restart
+    if (!firstL) o << ",";
+    firstL = false;
     o << "L" << (i + 1) << ":" << it->second->wq.size() << ":" << (it->second->wantWrite ? 1 : 0);
   }
   return o.str();
@@ -634,7 +651,7 @@ static std::string step(const std::vector<std::string>& t)
   if (op == "listen" && t.size() == 1)
   {
     auto before = e._atomicStats.commands.load();
-    auto fut = std::async(std::launch::async, [&e] { g_aux = pthread_self(); return e.addListener("127.0.0.1", 0, iora::network::TlsMode::None); });
+    auto fut = std::async(std::launch::async, [&e] { return e.addListener("127.0.0.1", 0, iora::network::TlsMode::None); });
     long long t0 = realMs();
     while (e._atomicStats.commands.load() == before)
     {
@@ -765,6 +782,25 @@ static std::string step(const std::vector<std::string>& t)
     g_vms.fetch_add((long long)a);
     return answer();
   }
+  if (op == "restart" && t.size() == 1)
+  {
+    // stop(): the Shutdown command is the only event the loop sees (no real epoll readiness), then shutdownDrain; then start()
+    g_opStartMs.store(realMs());
+    auto before = e._atomicStats.commands.load();
+    auto fut = std::async(std::launch::async, [&e] { e.stop(); return 0; });
+    while (e._atomicStats.commands.load() == before) usleep(50);
+    deliverNoWait(e._eventFd, EPOLLIN);
+    fut.get();                                           // joined: the close callbacks of shutdownDrain are in g_log
+    { std::lock_guard<std::mutex> lk(g_m); g_parked = false; g_go = false; g_deliver.clear(); }
+    { std::lock_guard<std::mutex> g(g_maskM); g_mask.clear(); }
+    W.srcName.clear();
+    W.clientPeer.clear();
+    auto sr = e.start();
+    if (!sr.isOk()) { g_machinery = "engine-restart-failed"; return "machinery:" + g_machinery; }
+    waitParked();
+    g_opStartMs.store(0);
+    return answer();
+  }
   if (op == "gc" && t.size() == 1)
   {
     if (!deliver(e._timerFd, EPOLLIN)) hang("gc");
@@ -778,6 +814,7 @@ int main()
   g_main = pthread_self();
   signal(SIGPIPE, SIG_IGN);
   if (!initPeers()) g_machinery = "cannot-bind-loopback-peers";
+  if (std::getenv("C06_FORCE_MACHINERY_FAILURE")) g_machinery = "forced-by-environment";   // self-test of the exit-2 path
   std::thread(watchdogMain).detach();
   int rc = vh::runLines([](const std::vector<std::string>& t) -> std::string {
     try { return step(t); }
